@@ -3,6 +3,7 @@ on the real StochasticGame.solve(), reusing the pipeline templates."""
 import copy
 import itertools
 import random
+from fractions import Fraction
 
 import z3
 
@@ -137,6 +138,13 @@ def _present(g, desc, perm, order_mode, rename):
     return dict(rewards=rw2, players=pl2, transition_list=tl2, final_states=fin2), ren
 
 
+def _inside_cell(x, digits=6, margin=Fraction(1, 10 ** 8)):
+    """x is further than `margin` from every boundary between two `digits`-digit rounding cells"""
+    u = Fraction(1, 10 ** digits)
+    r = (Fraction(x) - u / 2) % u
+    return margin < r < u - margin
+
+
 def _perms(n, k, rnd):
     ids = list(range(1, n))
     out = [[0] + ids[::-1]]
@@ -165,11 +173,13 @@ def _pres_jobs(tier, seed):
         inst += [("dead", [k, list(sk)]) for k in (P1, PR) for sk in (("D", "D", "A"), ("D", "A", "D"), ("A", "D", "D"), ("D", "F", "A"))]
         inst += [("orphans", [o]) for o in (0, 1, 2)]
         inst += [("order_sum", []), ("zero_dead", []), ("big_rewards", [P1, [0, 1, 2]]), ("big_rewards", [P2, [0, 1, 2]]), ("dup_actions", []), ("p1_final", [P1]), ("decimals", [])]
+        inst += [("near_chain", [k, list(o)]) for k in (P1, P2) for o in ((0, 1, 2), (1, 0, 2))]
         nperm = 2
     else:
         inst = _stopping_instances("thorough")
         # two solves per path: the dearest templates (two cycles, return probability 1/8, out-degree 4) do not finish
         inst = [x for x in inst if not (x[0] == "dead" and len(x[1][1]) == 4) and x[0] != "cyc2" and not (x[0] == "cyc" and x[1][0] > 1 / 16)]
+        inst += [("near_chain", [k, list(o)]) for k in (P1, P2) for o in itertools.permutations(range(3))]
         nperm = 4
     for g, a in inst:
         n = build(g, a).n
@@ -229,7 +239,10 @@ def pipe_present(sp, game, args, perm, order_mode, rename, nsym):
                 sp.prove(r2[1][perm[s]] is None and r2[0][perm[s]] is None, "chance state got a strategy")
                 continue
             vals = [exact[t] for _, t in g.tl[s]]
-            if all(x == y or abs(x - y) > 1e-5 for x, y in itertools.combinations(vals, 2)):
+            # (acyclic templates compute their values exactly up to float noise: there a value well inside a rounding cell
+            #  is rounded the same way in every presentation, so closer values may compete too)
+            if all(x == y or abs(x - y) > 1e-5 for x, y in itertools.combinations(vals, 2)) or \
+                    (g.acyclic() and all(_inside_cell(x) for x in vals)):
                 sp.prove(sorted(ren(x) for x in r1[1][s]) == sorted(r2[1][perm[s]]),
                          "reachability strategy of state %d differs: %s vs %s" % (s, r1[1][s], r2[1][perm[s]]))
         if game in ("ec", "finals"):
